@@ -758,6 +758,34 @@ func c26partB(r *engine.Run) *c26wide {
 			}
 		}
 	}
+	// a custom peers file (operator supplied, read at start-up by one bulk addition) with as many / more addresses than Max, on an
+	// empty and on a part-filled cache
+	for _, max := range []int{2, 3} {
+		for n := max - 1; n <= max+3; n++ {
+			for cached := 0; cached <= 1; cached++ {
+				vtime.SetUnix(c26T0)
+				dir := freshDir()
+				if cached == 1 {
+					js, _ := json.Marshal(map[string]interface{}{valid: map[string]interface{}{"Addr": valid, "LastSeen": c26T0 - 10, "HasIncomingPort": true}})
+					os.WriteFile(filepath.Join(dir, pex.PeerCacheFilename), js, 0o600)
+				}
+				custom := filepath.Join(dir, "custom.txt")
+				os.WriteFile(custom, []byte(strings.Join(pool[:n], "\n")+"\n"), 0o600)
+				c := cs{fmt.Sprintf("custom-peers-file/%d-lines/Max=%d/cached=%d", n, max, cached), "", false, nil}
+				w.evals++
+				px, err := c26newPex(c26cfg{Max: max}, dir, nil, custom)
+				if err != nil {
+					w.outcomes.Add("custom-peers-file/oversize:New-fails:" + err.Error())
+					continue
+				}
+				v, _, _ := c26view(px)
+				for _, f := range model.JudgeList(v, max, false, "Pex.New:custom-peers-file-with-many-lines") {
+					r.Failf(f.Sig, c, "%s: %s", c.Entrance, f.Detail)
+				}
+				w.outcomes.Add("custom-peers-file:loaded")
+			}
+		}
+	}
 	// timestamp tie (no auto-tick): two untrusted peers added in the same second are both "oldest"; which one a
 	// full list evicts depends on map iteration order — either is fine, a trusted one or a fresh one is not.
 	for rep := 0; rep < 8; rep++ {
